@@ -24,14 +24,17 @@ deriving DecidableEq, Repr
 
 /-- `handleMouse`: (bytes written to the pty by `handleMouse` itself, returned string). -/
 def handleMouse (md : Modes) (msg : Mouse) : Str × Str :=
-  if !md.mouseButtons && !md.mouseDrag && !md.mouseMotion && !md.mouseSGR then
+  if !md.mouseButtons && !md.mouseDrag && !md.mouseMotion then
     if md.altScroll && md.smcup then
-      let up : Str := if msg.button = (MouseWheelUp : Nat) then [27, 79, 65, 27, 79, 65, 27, 79, 65] else []
-      let down : Str := if msg.button = (MouseWheelDown : Nat) then [27, 79, 66, 27, 79, 66, 27, 79, 66] else []
-      (up ++ down, [])
+      -- wheel → three cursor keys, in the form the cursor key mode selects
+      let up : Str := if md.decckm then [27, 79, 65] else [27, 91, 65]
+      let down : Str := if md.decckm then [27, 79, 66] else [27, 91, 66]
+      let w1 : Str := if msg.button = (MouseWheelUp : Nat) then up ++ up ++ up else []
+      let w2 : Str := if msg.button = (MouseWheelDown : Nat) then down ++ down ++ down else []
+      (w1 ++ w2, [])
     else ([], [])
   else if !md.mouseMotion && msg.event = EventMotion && msg.button = (MouseNoButton : Nat) then ([], [])
-  else if !md.mouseDrag && msg.event = EventMotion then ([], [])
+  else if !md.mouseDrag && !md.mouseMotion && msg.event = EventMotion then ([], [])
   else if md.mouseSGR then
     let body (b : Int) (fin : Int) : Str :=
       [27, 91, 60] ++ decimal b ++ [59] ++ decimal (msg.col + 1) ++ [59] ++ decimal (msg.row + 1) ++ [fin]
